@@ -86,7 +86,10 @@ fn ctx(id: u8, serial: u16) -> DecapContext {
             }
         }
     }
-    DecapContext::new(Label::ThreeBytesLabel([id, serial as u8, (serial >> 8) as u8]), 0x0800 + serial, id, 100 + serial, serial, serial % 2 == 1, exts)
+    // contexts come in groups of four that agree on label, protocol type and total length and differ in the received
+    // length, the re-use flag and the extensions: "what was saved last" must come back, not a look-alike
+    let g = serial / 4;
+    DecapContext::new(Label::ThreeBytesLabel([id, g as u8, (g >> 8) as u8]), 0x0800 + g, id, 100 + g, serial, serial % 2 == 1, exts)
 }
 
 #[derive(Clone)]
@@ -348,7 +351,7 @@ impl Property for Prop {
             let a = alphabet(s).len() as u64;
             n += a * a;
         }
-        vec![Gen { name: "exhaustive", count: n, exhaustive: true }, Gen { name: "random", count: cx.n(400, 20_000), exhaustive: false }, Gen { name: "sizes", count: 12, exhaustive: true }]
+        vec![Gen { name: "exhaustive", count: n, exhaustive: true }, Gen { name: "random", count: cx.n(400, 20_000), exhaustive: false }, Gen { name: "sizes", count: 12, exhaustive: true }, Gen { name: "allpending", count: 6, exhaustive: true }]
     }
     fn run_key(&self, cx: &Cx, gen: &str, key: u64, rep: &mut Report) {
         let replay_s = format!("gen={} key={} seed={} profile={}", gen, key, cx.seed, cx.profile);
@@ -391,6 +394,66 @@ impl Property for Prop {
                 if key == 40 {
                     rep.sample(|| format!("exhaustive: slots {} (calibrated free-list capacity {}), all sequences starting [{}; {}] agree with the bag model", slots, cap, op_str(&seq[0]), op_str(&seq[1])));
                 }
+            }
+            "allpending" => {
+                // a context pending on EVERY fragment id at once (256 / 300-slot memories): each comes back exactly as
+                // saved, with the buffer it was saved with (identity = buffer length), in three take orders
+                use dvb_gse_rust::gse_decap::GseDecapMemory;
+                let slots = [256usize, 300][(key % 2) as usize];
+                let mut m = SimpleGseMemory::new(slots, PDU_SIZE, 0, 0);
+                for i in 0..256usize {
+                    rep.eval();
+                    if guard(|| m.provision_storage(vec![i as u8; PDU_SIZE + i].into_boxed_slice())).map(|r| r.is_err()).unwrap_or(true) {
+                        rep.violation("C17", "all-ids-pending:provision".into(), || format!("{}-slot memory refused buffer {} of 256", slots, i + 1), &replay);
+                        return;
+                    }
+                }
+                let mut owned: Vec<usize> = vec![0; 256];
+                for id in 0..256usize {
+                    rep.eval();
+                    let c = ctx(id as u8, (id * 3 + 1) as u16);
+                    match guard(|| m.new_frag(c.clone())) {
+                        Ok(Ok((rc, b))) if rc == c => {
+                            owned[id] = b.len();
+                            match guard(|| m.save_frag((rc, b))) {
+                                Ok(Ok(())) => {}
+                                o => {
+                                    rep.violation("C17", "all-ids-pending:save_frag".into(), || format!("{}-slot memory, {} contexts pending: save_frag(id {}) -> {:?}", slots, id, id, o.map(|r| r.map_err(|e| format!("{:?}", e)))), &replay);
+                                    return;
+                                }
+                            }
+                        }
+                        o => {
+                            rep.violation("C17", "all-ids-pending:new_frag".into(), || format!("{}-slot memory, {} contexts pending: new_frag(id {}) -> {}", slots, id, id, match o { Ok(Ok(_)) => "another context".to_string(), Ok(Err(e)) => format!("{:?}", e), Err(p) => format!("panic {}", p) }), &replay);
+                            return;
+                        }
+                    }
+                }
+                let mut lens: Vec<usize> = owned.clone();
+                lens.sort_unstable();
+                lens.dedup();
+                if lens.len() != 256 {
+                    rep.violation("C17", "all-ids-pending:buffer-handed-out-twice".into(), || format!("256 new_frag calls on empty slots handed out only {} distinct buffers", lens.len()), &replay);
+                    return;
+                }
+                let order: Vec<usize> = match key / 2 {
+                    0 => (0..256).collect(),
+                    1 => (0..256).rev().collect(),
+                    _ => (0..256).map(|i| (i * 37 + 11) % 256).collect(),
+                };
+                for id in order {
+                    rep.eval();
+                    let want = ctx(id as u8, (id * 3 + 1) as u16);
+                    match guard(|| m.take_frag(id as u8)) {
+                        Ok(Ok((c, b))) if c == want && b.len() == owned[id] => {}
+                        o => {
+                            rep.violation("C17", "all-ids-pending:take_frag".into(), || format!("{}-slot memory with a context pending on every fragment id: take_frag({}) -> {}", slots, id, match o { Ok(Ok((c, b))) => format!("context of id {} with a {}-byte buffer (saved with {} bytes)", c.frag_id, b.len(), owned[id]), Ok(Err(e)) => format!("{:?}", e), Err(p) => format!("panic {}", p) }), &replay);
+                            return;
+                        }
+                    }
+                }
+                rep.count("c17.all-ids-pending-ok");
+                rep.nontrivial(mix(0xA11F, key));
             }
             "sizes" => {
                 // configured PDU sizes around the 8-, 12- and 16-bit limits: a buffer is accepted iff it is at least
